@@ -9,10 +9,14 @@ pub struct Transcript {
 
 impl Transcript {
     pub fn new(digest: Felt) -> Self {
+        #[cfg(feature = "verif-hooks")]
+        crate::verif::record(crate::verif::Event::New { digest, counter: Felt::from(0) });
         Self { digest, counter: Felt::from(0) }
     }
 
     pub fn new_with_counter(digest: Felt, counter: Felt) -> Self {
+        #[cfg(feature = "verif-hooks")]
+        crate::verif::record(crate::verif::Event::New { digest, counter });
         Self { digest, counter }
     }
 
@@ -26,6 +30,12 @@ impl Transcript {
 
     pub fn random_felt_to_prover(&mut self) -> Felt {
         let hash = poseidon_hash(self.digest, self.counter);
+        #[cfg(feature = "verif-hooks")]
+        crate::verif::record(crate::verif::Event::Squeeze {
+            digest: self.digest,
+            counter: self.counter,
+            out: hash,
+        });
         self.counter += Felt::ONE;
         hash
     }
@@ -41,14 +51,30 @@ impl Transcript {
 
     pub fn read_felt_from_prover(&mut self, val: &Felt) {
         let hash = poseidon_hash_many([&(self.digest + Felt::ONE), val]);
+        #[cfg(feature = "verif-hooks")]
+        let before = self.digest;
         self.digest = hash;
         self.counter = Felt::ZERO;
+        #[cfg(feature = "verif-hooks")]
+        crate::verif::record(crate::verif::Event::AbsorbFelt {
+            before,
+            value: *val,
+            after: self.digest,
+        });
     }
 
     pub fn read_felt_vector_from_prover(&mut self, val: &[Felt]) {
         let hash = poseidon_hash_many(vec![&(self.digest + Felt::ONE)].into_iter().chain(val));
+        #[cfg(feature = "verif-hooks")]
+        let before = self.digest;
         self.digest = hash;
         self.counter = Felt::ZERO;
+        #[cfg(feature = "verif-hooks")]
+        crate::verif::record(crate::verif::Event::AbsorbVec {
+            before,
+            values: val.to_vec(),
+            after: self.digest,
+        });
     }
 
     pub fn read_uint64_from_prover(&mut self, val: u64) {
